@@ -593,7 +593,7 @@ func runC05(c *hc.Ctx) error {
 					continue
 				}
 				checkRingsWellFormed(c, g, poly, ids, cfg, r)
-				c.Case(snapCaseTerm(g, poly, ids, cfg, r), caseJSON(g, poly, ids, cfg, r))
+				c.Case("SnapC ("+snapCaseTerm(g, poly, ids, cfg, r)+")", caseJSON(g, poly, ids, cfg, r))
 				if i < 1 {
 					c.Sample(caseJSON(g, poly, ids, cfg, r))
 				}
@@ -668,10 +668,11 @@ func runC05(c *hc.Ctx) error {
 					continue
 				}
 				checkRingsWellFormed(c, wm, poly, []int{wmID}, cfg, r)
-				c.Case(snapCaseTerm(wm, poly, []int{wmID}, cfg, r), caseJSON(wm, poly, []int{wmID}, cfg, r))
+				c.Case("SnapC ("+snapCaseTerm(wm, poly, []int{wmID}, cfg, r)+")", caseJSON(wm, poly, []int{wmID}, cfg, r))
 			}
 		}
 	}
+	componentStream(c)
 	return nil
 }
 
@@ -747,11 +748,12 @@ func runC07(c *hc.Ctx) error {
 		if r4.Panic != "" || !reverseOnly(r.ByID, r4.ByID) {
 			c.Violate(hc.Violation{What: "the reverse-winding-order flag changed more than the direction of the rings", Input: caseJSON(g, poly, ids, cfg, r), Observed: r4.Raw})
 		}
-		c.Case(snapCaseTerm(g, poly, ids, cfg, r), caseJSON(g, poly, ids, cfg, r))
+		c.Case("SnapC ("+snapCaseTerm(g, poly, ids, cfg, r)+")", caseJSON(g, poly, ids, cfg, r))
 		if i < 3 {
 			c.Sample(caseJSON(g, poly, ids, cfg, r))
 		}
 	}
+	componentStream(c)
 	return nil
 }
 
